@@ -385,9 +385,17 @@ func main() {
 		seen[h] = true
 		tree, perr := parseJSON(c.Doc)
 		f, ref := reference(tree, perr, c.Pw)
+		beyond := false
 		if f.tooExpensive() {
-			st.Hit("skipped:cost-above-cap")
-			continue
+			if !f.runsBeyondCap() {
+				st.Hit("skipped:cost-above-cap")
+				continue
+			}
+			// outside the property's quantifier, but it fails fast: scrypt.Key panics in makeslice before it
+			// allocates anything. Run to tie the model's allocation cap (Keystore/Prims.v scrypt_alloc_ok) to the
+			// runtime: the Coq evaluator requires model = Panic exactly when the call panicked.
+			beyond = true
+			st.Hit("beyond-alloc-cap:run")
 		}
 		d := desc{Family: c.Family, Name: c.Name, DocHex: hex.EncodeToString(c.Doc), PwHex: hex.EncodeToString(c.Pw),
 			Aspects: ref.Aspects, MacValid: ref.MacValid, RefKey: hex.EncodeToString(ref.Key)}
@@ -407,6 +415,14 @@ func main() {
 		}
 		d.Impl, d.ImplKey, d.ImplMsg = clsName(o.Cls), hex.EncodeToString(o.Key), o.Msg
 		key, what := judge(o, ref)
+		if beyond && o.Cls == clsPanic && strings.Contains(o.Msg, "makeslice: len out of range") {
+			// the expected outcome beyond the allocation cap (not a finding: the quantifier caps the cost
+			// parameters); whether the model panics on exactly these documents is decided in Coq
+			key, what = "", ""
+			st.Hit("beyond-alloc-cap:makeslice-panic")
+		} else if beyond {
+			st.Hit("beyond-alloc-cap:" + clsName(o.Cls))
+		}
 		d.Key, d.What = key, what
 
 		st.Evaluations++
@@ -486,7 +502,7 @@ func main() {
 	if stopped != "" {
 		st.Extra["stopped"] = stopped
 	}
-	st.Rule = "valid scrypt/PBKDF2 V3 files written by the harness's own writer (N 2..2^12, r in {1,2,8}, p in {1,2,3}, c in {1..4096}; key 1..2000 bytes; salt 0..64 bytes; 9 password classes) and, from them: every member missing / null / 14 wrong JSON kinds; dklen over {-2^63..2^63} incl. -1,0,16,31,32,33,64,2^31; IV of 0..35,48,64 bytes and malformed hex; cipher / kdf / prf names; scrypt N (non powers of two, 0, 1, negative, at the library limits), r, p (0, negative, r*p at 2^30), PBKDF2 c (<= 0, huge); salt / ciphertext / MAC shapes and single-byte tampering; version / id values; member-name case and duplicate members; extra members; truncation, byte damage, leading/trailing data; top-level shapes; combined mutations of random valid files; arbitrary bytes. Each mutated document is run with the stale MAC and again with the MAC recomputed by the harness (direct x/crypto + sha3 calls) whenever a derived key exists. Cost capped: N <= 2^14, r, p <= 64, c <= 2^16 (documents above the cap inside the library domain are not run). distinct_nontrivial = distinct (document, password) pairs that parse to a JSON object with a crypto object"
+	st.Rule = "valid scrypt/PBKDF2 V3 files written by the harness's own writer (N 2..2^12, r in {1,2,8}, p in {1,2,3}, c in {1..4096}; key 1..2000 bytes; salt 0..64 bytes; 9 password classes) and, from them: every member missing / null / 14 wrong JSON kinds; dklen over {-2^63..2^63} incl. -1,0,16,31,32,33,64,2^31; IV of 0..35,48,64 bytes and malformed hex; cipher / kdf / prf names; scrypt N (non powers of two, 0, 1, negative, at the library limits), r, p (0, negative, r*p at 2^30), PBKDF2 c (<= 0, huge); salt / ciphertext / MAC shapes and single-byte tampering; version / id values; member-name case and duplicate members; extra members; truncation, byte damage, leading/trailing data; top-level shapes; combined mutations of random valid files; arbitrary bytes. Each mutated document is run with the stale MAC and again with the MAC recomputed by the harness (direct x/crypto + sha3 calls) whenever a derived key exists. Cost capped: N <= 2^14, r, p <= 64, c <= 2^16 (documents above the cap inside the library domain are not run, except family scrypt-alloc-cap: 128*N*r > 2^48 with small r, where scrypt.Key panics in makeslice at once -- outside the quantifier, run only to tie the model's allocation cap to the runtime). distinct_nontrivial = distinct (document, password) pairs that parse to a JSON object with a crypto object"
 	if err := st.Write(filepath.Join(*out, "stats_C15.json")); err != nil {
 		panic(err)
 	}
